@@ -29,6 +29,14 @@ def generate(rng, tier, shard, nshards):
         if gi % 3 == 1:
             base["pre"] = [rng.choice(["agenda", "treesum", "naive", "agenda_maxiter", "treesum_maxiter", "treesum_tol", "agenda_tol", "trim", "cnf"]) for _ in range(rng.randint(1, 2))]
             feat = feat + "+history"
+            # the judged call names the same option as an earlier call on the object, with another value
+            last = base["pre"][-1]
+            if last.endswith("_maxiter"):
+                base["kw"] = {"maxiter": 100000}
+                feat = feat + "+same-option-other-value"
+            elif last.endswith("_tol"):
+                base["kw"] = {"tol": 1e-12}
+                feat = feat + "+same-option-other-value"
         elif gi % 3 == 2 and len(G["rules"]) >= 2:
             base["late"] = rng.randint(1, len(G["rules"]) - 1)      # rules added after a first evaluation
             feat = feat + "+rules-added-after-evaluation"
@@ -36,7 +44,7 @@ def generate(rng, tier, shard, nshards):
         yield gops.event("treesum", dict(base, how="naive"), site="naive_bottom_up", feat=feat)
         yield gops.event("treesum", dict(base, how="treesum", twice=(gi % 2 == 0)), site="treesum", feat=feat)
         if srn == "Rat":
-            yield gops.event("explen", {k: v for k, v in base.items() if k not in ("pre", "late")}, site="expected_length", feat=feat)
+            yield gops.event("explen", {k: v for k, v in base.items() if k not in ("pre", "late", "kw")}, site="expected_length", feat=feat)
     if shard == 1:
         # proper right-linear grammars whose inner blocks converge slowly (loops of weight close to one): every total
         # is one; the blocks above a slowly converging block must still be evaluated
